@@ -124,3 +124,44 @@ Lemma source_keys_ok :
   FROM_DICT_KEYS = [k_data; k_data_id; k_node_id; k_children] /\
   TO_DICT_ID_TEST_IS_NE_HASH = true.
 Proof. repeat split; vm_compute; reflexivity. Qed.
+
+(* canonical dict lists: the four shapes of a canonical item *)
+Lemma canon_leaf dd s i : dd (Some (JStr s)) = inl i -> i_name i = s -> canon dd (JDict [(k_data, JStr s)]).
+Proof. intros H1 H2. apply (canon_item dd s i [] [] H1 H2); now left. Qed.
+
+Lemma canon_id dd s i dv : dd (Some (JStr s)) = inl i -> i_name i = s -> dv <> DInt (i_hash i) ->
+  canon dd (JDict [(k_data, JStr s); (k_data_id, jv_of_did dv)]).
+Proof.
+  intros H1 H2 H3. apply (canon_item dd s i [(k_data_id, jv_of_did dv)] [] H1 H2); [right|now left].
+  exists dv. split; [reflexivity|exact H3].
+Qed.
+
+Lemma canon_kids dd s i c cs : dd (Some (JStr s)) = inl i -> i_name i = s -> Forall (canon dd) (c :: cs) ->
+  canon dd (JDict [(k_data, JStr s); (k_children, JList (c :: cs))]).
+Proof.
+  intros H1 H2 H3. apply (canon_item dd s i [] [(k_children, JList (c :: cs))] H1 H2); [now left|right].
+  exists c, cs. split; [reflexivity|exact H3].
+Qed.
+
+Lemma canon_full dd s i dv c cs : dd (Some (JStr s)) = inl i -> i_name i = s -> dv <> DInt (i_hash i) ->
+  Forall (canon dd) (c :: cs) ->
+  canon dd (JDict [(k_data, JStr s); (k_data_id, jv_of_did dv); (k_children, JList (c :: cs))]).
+Proof.
+  intros H1 H2 H3 H4.
+  apply (canon_item dd s i [(k_data_id, jv_of_did dv)] [(k_children, JList (c :: cs))] H1 H2); right.
+  - exists dv. split; [reflexivity|exact H3].
+  - exists c, cs. split; [reflexivity|exact H4].
+Qed.
+
+(* the dump of the example tree is canonical *)
+Lemma ex_canon : Forall (canon (dd_raw ex_raw)) (to_dict_list sm_none ex_f).
+Proof.
+  rewrite ex_dump. apply Forall_cons; [|apply Forall_cons; [|apply Forall_nil]].
+  - apply (canon_full _ [97] (I (-1) 1 11 true [97] (DInt 0) None []) (DInt 0)); [reflexivity|reflexivity|discriminate|].
+    apply Forall_cons; [|apply Forall_cons; [|apply Forall_nil]].
+    + apply (canon_id _ [98] (I (-1) 2 22 true [98] (DInt 0) None []) (DStr [])); [reflexivity|reflexivity|discriminate].
+    + apply (canon_leaf _ [97] (I (-1) 1 11 true [97] (DInt 0) None [])); reflexivity.
+  - apply (canon_kids _ [98] (I (-1) 2 22 true [98] (DInt 0) None [])); [reflexivity|reflexivity|].
+    apply Forall_cons; [|apply Forall_nil].
+    apply (canon_id _ [97] (I (-1) 1 11 true [97] (DInt 0) None []) (DInt 0)); [reflexivity|reflexivity|discriminate].
+Qed.
